@@ -43,14 +43,15 @@ def gen_class(lang, name, n_pub, n_priv, extras, blank, comment, start_line, sty
     elif lang in ("typescript", "javascript"):
         L.append({"plain": f"class {name} {{", "abstract": f"abstract class {name} {{", "exported": f"export class {name} {{",
                   "hash-private": f"class {name} {{", "modifier-private": f"class {name} {{",
-                  "class-expression": f"const {name} = class {{"}[style if lang == "typescript" or style in ("hash-private", "class-expression") else "plain"])
+                  "class-expression": f"const {name} = class {{", "explicit-public": f"class {name} {{"}[style if lang == "typescript" or style in ("hash-private", "class-expression") else "plain"])
         L.append("  x = 1;")
         if comment:
             L.append("  // a comment line")
         if comment:
             L += ["  /* a block comment", "   * with a starred line", "   */"]
         for i in range(n_pub):
-            L += [f"  pub{i}() {{", f"    return {i}", f"      * 2;", "  }"] if (comment and i == 0) else [f"  pub{i}() {{", f"    return {i};", "  }"]
+            pm = "public " if (style == "explicit-public" and lang == "typescript") else ""
+            L += [f"  {pm}pub{i}() {{", f"    return {i}", f"      * 2;", "  }"] if (comment and i == 0) else [f"  {pm}pub{i}() {{", f"    return {i};", "  }"]
             if blank:
                 L.append("")
         for i in range(n_priv):
@@ -58,7 +59,7 @@ def gen_class(lang, name, n_pub, n_priv, extras, blank, comment, start_line, sty
             L += [f"  {pname}() {{", "    return null;", "  }"]
         pub = n_pub
         if "dunder" in extras:
-            L += ["  constructor() {", "    this.v = 0;", "  }"]
+            L += ["  public constructor() {" if (style == "explicit-public" and lang == "typescript") else "  constructor() {", "    this.v = 0;", "  }"]
         if "static" in extras:
             L += ["  static stat() {", "    return 2;", "  }"]
             pub += 1
@@ -142,7 +143,7 @@ def make_harness(tier):
             n_priv = ctx.pick(f"npriv{c}", (0, 2) if not small else (2,))
             extras = ctx.pick(f"extras{c}", extras_opts if not small else extras_opts[-1:])
             fill = ctx.pick(f"fill{c}", ("plain", "blank+comment") if not small else ("blank+comment",))
-            style = ctx.pick(f"style{c}", {"python": ("plain",), "typescript": ("plain", "abstract", "exported", "hash-private", "modifier-private", "class-expression"),
+            style = ctx.pick(f"style{c}", {"python": ("plain",), "typescript": ("plain", "abstract", "exported", "hash-private", "modifier-private", "class-expression", "explicit-public"),
                                            "javascript": ("plain", "hash-private", "class-expression"), "rust": ("plain", "generic")}[lang]) if (c == 0 and (quick or (ov == "none" and nclasses == 1))) else "plain"
             L, pub, loc, hl = gen_class(lang, name, n_pub, n_priv, extras, fill != "plain",
                                         fill != "plain", len(lines) + 1, style)
